@@ -808,7 +808,7 @@ class _Mul(_TensorialSample):
         return self._sample1.integral(self._sample2.integral(func))
 
     def _bind(self, func: function.Array) -> function.Array:
-        return numpy.reshape(self._sample1._bind(self._sample2._bind(func)), (-1, *func.shape))
+        return numpy.reshape(self._sample1._bind(self._sample2._bind(func)), (self.npoints, *func.shape))
 
     def basis(self, interpolation: str = 'none') -> Sample:
         basis1 = self._sample1.basis(interpolation)
